@@ -192,6 +192,8 @@ def work(args):
             att = ms.run(spec, seed, None, flood=atk[1])
         elif atk[0] == "probe":
             att = ms.run(spec, seed, None, probes=atk[1])
+        elif atk[0] == "reconnect":
+            att = ms.run(spec, seed, None, reconnect=atk[1])
         else:
             att = ms.run(spec, seed, None)
         bad = []
@@ -213,6 +215,12 @@ def work(args):
             for vp, ty, outcome, got in att.probe_results:
                 if outcome != "failed":
                     bad.append(("unknown-port", "a third party connecting to (port %d, stream type %d), which nobody serves, was connected (and got %r)" % (vp, ty, got)))
+        if atk[0] == "reconnect":
+            rr = getattr(att, "recon_results", [])
+            if not rr or rr[0][0] != "connected" or rr[0][1] != b"echo:RECON:0":
+                bad.append(("reconnect-setup", "the reconnecting peer's first connection did not work: %r" % (rr[:2],)))
+            if len(rr) < 2:
+                bad.append(("reconnect-setup", "the reconnecting peer never reconnected: %r" % (rr,)))
         if atk[0] == "flood" and att.flood_sent < atk[1]["n"]:
             bad.append(("flood-setup", "the flooding peer could send only %d of %d messages (%s)" % (att.flood_sent, atk[1]["n"], getattr(att, "flood_error", None))))
         if diff:
@@ -234,7 +242,7 @@ def work(args):
         # traffic for unknown ports / peers creates no state
         for t, tab in att.tables:
             for vp, size in tab.items():
-                allowed = sum(1 for c in spec.clients if (c["vport"] if isinstance(c["vport"], int) else c["vport"][0]) == vp) + (1 if atk[0] == "flood" and atk[1]["vport"] == vp else 0)   # the flooding peer is a valid connection
+                allowed = sum(1 for c in spec.clients if (c["vport"] if isinstance(c["vport"], int) else c["vport"][0]) == vp) + (1 if atk[0] in ("flood", "reconnect") and atk[1]["vport"] == vp else 0)   # the flooding peer is a valid connection
                 if size > allowed:
                     bad.append(("state-created", "at t=%.3f the server holds %d connections on vport %d, only %d genuine clients exist" % (t, size, vp, allowed)))
                     break
@@ -282,7 +290,7 @@ def run(ctx):
                 "tails, splices, insertions, bit flips, length-field lies, unknown options, zero-length datagrams next to every genuine "
                 "datagram with the given intensity (to the server from its own address, with a victim's address but another port, to the "
                 "clients, and spoofed as the server), or opens a hostile stream connection (partial header, bad magic, garbage, huge "
-                "announced length), or uses the ordinary client against (port, stream type) pairs nobody serves, or is a perfectly valid further peer whose handler is busy and who sends 150..300 messages nobody reads; oracle: non-interference, delivery only on the addressed connection/port, no server state for "
+                "announced length), or uses the ordinary client against (port, stream type) pairs nobody serves, or is a perfectly valid further peer whose handler is busy and who sends 150..300 messages nobody reads, or a valid peer that closes and reconnects at once from the same address and port while the server's handler of the closed connection is still in its teardown; oracle: non-interference, delivery only on the addressed connection/port, no server state for "
                 "unknown peers, bounded decode work; the server transport of every datagram run is replayed through the Lean L1 model; "
                 "distinct non-trivial = injected hostile datagrams")
     jobs = []
@@ -327,6 +335,16 @@ def run(ctx):
     ]
     for sp, probes in (pr_specs[:3] if quick else pr_specs):
         jobs.append((n, sp, ctx.rng.getrandbits(32), ("probe", probes))); n += 1
+    # a valid peer that closes and reconnects at once from the same (address, port, type) while the handler of the closed connection
+    # is still in its teardown; the victims go on well beyond the moment the reconnector's connections have timed out
+    rc_specs = [dict(server_version=1, clients=[dict(version=1, vport=1), dict(version=1, vport=2)], vports=[1, 2]),
+                dict(server_version=2, clients=[dict(version=1, vport=1), dict(version=0, vport=1)], vports=[1]),
+                dict(transport="lite", server_version=1, clients=[dict(version=1, vport=1)], vports=[1]),
+                dict(server_version=0, clients=[dict(version=0, vport=1)], vports=[1])]
+    for sp in (rc_specs[:3] if quick else rc_specs):
+        for teardown in ((0.25,) if quick else (0.0625, 0.25, 1.0)):
+            jobs.append((n, dict(sp, ping_timeout=1.0, resend_timeout=0.25, rounds=9, round_gap=0.4375), ctx.rng.getrandbits(32),
+                         ("reconnect", dict(vport=sp["vports"][0], cycles=2 if teardown < 1 else 3, teardown=teardown, start=ctx.rng.choice([0.25, 0.5]))))); n += 1
     drv = ctx.driver("C02")
     ndiff, first = 0, None
     with multiprocessing.Pool(min(16, os.cpu_count() or 4)) as pool:
@@ -335,7 +353,7 @@ def run(ctx):
                 ctx.corr_break("c07-session-harness", "session crashed in the harness", {"traceback": err, "spec": specd, "attack": atk})
                 continue
             for key, what in bad:
-                ctx.violation("c07:%s:%s" % (key, specd.get("transport", "udp") + (":" + atk[1] if atk[0] == "stream" else "") + (":flood" if atk[0] == "flood" else "") + (":probe" if atk[0] == "probe" else "")), what,
+                ctx.violation("c07:%s:%s" % (key, specd.get("transport", "udp") + (":" + atk[1] if atk[0] == "stream" else "") + (":flood" if atk[0] == "flood" else "") + (":probe" if atk[0] == "probe" else "") + (":reconnect" if atk[0] == "reconnect" else "")), what,
                               {"spec": specd, "attack": atk, "seed": seed, "how": "harness/corr_C07.py work((0, spec, seed, attack))"})
             r = l1_server_compare(drv, att) if att is not None else {"ok": True, "diffs": [], "skipped": True}
             if not r["ok"]:
